@@ -200,9 +200,10 @@ void rf_wavheader_set_num_frames(rf_wavheader_t *wh, unsigned int num_frames)
 	wh->chunk_size -= wh->data_chunk_size;
 
 	wh->data_chunk_size = num_frames * wh->block_align;
-	// doesn't matter if there is no fact chunk, we'll not emit this if this
-	// chunk is absent
-	wh->sample_length = num_frames * wh->num_channels;
+	// sample_length lives in the fact chunk; leave it alone when the chunk
+	// is absent so that the structure matches what decode produces
+	if (0 == memcmp(fact, wh->fact_chunk_id, 4))
+		wh->sample_length = num_frames * wh->num_channels;
 	wh->chunk_size += num_frames * wh->block_align;
 }
 
